@@ -115,6 +115,9 @@ pub enum Shape {
 pub struct Case {
     pub shape: Shape,
     pub seps: usize,
+    /// 1 / 2: the first / second amount of money is ALSO held in a name bound on an earlier line (same value expected)
+    #[serde(default)]
+    pub via: u8,
 }
 
 pub const CONNECTIVES: [&str; 5] = ["", "to", "in", "into", "as"];
@@ -288,6 +291,27 @@ impl Prop for MoneyProp {
             Shape::Scale(..) => (true, "scale"),
             Shape::Ratio(a, b) => (a.cur != b.cur, "ratio"),
         };
+        // metamorphic: an amount of money held in a name bound on an earlier line is that amount
+        let mut via_checked = false;
+        if acc.ok() && c.via != 0 && matches!(slot, Slot::Ok { .. }) && !matches!(c.shape, Shape::Literal(_)) {
+            let whole = shape_line(&c.shape);
+            let (from, to) = match (&c.shape, c.via) {
+                (Shape::AddSub(..), 2) | (Shape::Ratio(..), 2) => (2, 3),
+                _ => (0, 1),
+            };
+            let text2 = whole.via_variable(from, to, if c.via == 1 { "fee" } else { "net price" }, dec, thou);
+            match w.eval(&cfg, "en", &text2) {
+                Ok(o) if o.slots.len() == 2 => {
+                    via_checked = true;
+                    if !o.slots[1].same(&slot) {
+                        // (the one-line form may be the known finding F51 hidden inside the tolerance of the main comparison)
+                        acc.fail_kf(format!("{:?} gives {} but with the amount held in a name ({:?}) it gives {}", line, slot.brief(), text2, o.slots[1].brief()), classify_known(&c.shape, &slot));
+                    }
+                }
+                Ok(o) => acc.fail(format!("{} slots for the two lines {:?}", o.slots.len(), text2)),
+                Err(p) => acc.fail(format!("{:?}: panic at {}: {}", text2, p.site, p.message)),
+            }
+        }
         let lit = match &c.shape {
             Shape::Literal(m) | Shape::Convert(m, ..) | Shape::AddSub(m, ..) | Shape::Scale(m, ..) | Shape::Ratio(m, _) => m,
         };
@@ -297,7 +321,7 @@ impl Prop for MoneyProp {
             Spelling::CodeAfter(..) => "spelling:code-after",
             Spelling::AliasAfter(..) => "spelling:alias-after",
         };
-        acc.finish(rendered).nt(nt || matches!(c.shape, Shape::Literal(_)) && (lit.suffix.is_some() || lit.amount.has_fraction())).class(class).class(sp).class_if(lit.suffix.is_some(), "has-suffix").class_if(c.seps != 0, "non-default-separators")
+        acc.finish(rendered).nt(nt || matches!(c.shape, Shape::Literal(_)) && (lit.suffix.is_some() || lit.amount.has_fraction())).class(class).class(sp).class_if(lit.suffix.is_some(), "has-suffix").class_if(c.seps != 0, "non-default-separators").class_if(via_checked, "amount-also-via-a-variable")
     }
 }
 
@@ -372,7 +396,7 @@ pub fn shape_strategy() -> impl Strategy<Value = Shape> {
 }
 
 pub fn case_strategy() -> impl Strategy<Value = Case> {
-    (shape_strategy(), prop_oneof![3 => Just(0usize), 1 => 1usize..4]).prop_map(|(shape, seps)| Case { shape, seps })
+    (shape_strategy(), prop_oneof![3 => Just(0usize), 1 => 1usize..4], prop_oneof![3 => Just(0u8), 1 => 1u8..3]).prop_map(|(shape, seps, via)| Case { shape, seps, via })
 }
 
 pub fn plain_lit(v: f64, cur: &str) -> MoneyLit {
@@ -388,10 +412,10 @@ pub fn pair_table() -> Vec<Case> {
         for b in &v.rated {
             for amount in [100.0, 12345.67] {
                 k = (k + 1) % 5;
-                out.push(Case { shape: Shape::Convert(plain_lit(amount, &a.key), k, b.key.clone(), 0, 0), seps: 0 });
+                out.push(Case { shape: Shape::Convert(plain_lit(amount, &a.key), k, b.key.clone(), 0, 0), seps: 0, via: 0 });
             }
-            out.push(Case { shape: Shape::AddSub(plain_lit(250.0, &a.key), k % 2 == 0, plain_lit(75.5, &b.key)), seps: 0 });
-            out.push(Case { shape: Shape::Ratio(plain_lit(250.0, &a.key), plain_lit(75.5, &b.key)), seps: 0 });
+            out.push(Case { shape: Shape::AddSub(plain_lit(250.0, &a.key), k % 2 == 0, plain_lit(75.5, &b.key)), seps: 0, via: 0 });
+            out.push(Case { shape: Shape::Ratio(plain_lit(250.0, &a.key), plain_lit(75.5, &b.key)), seps: 0, via: 0 });
         }
     }
     out
@@ -403,19 +427,19 @@ pub fn literal_table() -> Vec<Case> {
     let mut out = vec![];
     for key in v.all_currency_keys.iter() {
         for (sp, cp) in [(1u8, 0u8), (0, 1), (2, 3)] {
-            out.push(Case { shape: Shape::Literal(MoneyLit { amount: NumLit { v: 1234.5, sign: 0, group: false }, suffix: None, cur: key.clone(), spelling: Spelling::CodeAfter(sp, cp, 0) }), seps: 0 });
+            out.push(Case { shape: Shape::Literal(MoneyLit { amount: NumLit { v: 1234.5, sign: 0, group: false }, suffix: None, cur: key.clone(), spelling: Spelling::CodeAfter(sp, cp, 0) }), seps: 0, via: 0 });
         }
-        out.push(Case { shape: Shape::Literal(MoneyLit { amount: NumLit { v: 1.5, sign: 1, group: false }, suffix: Some('k'), cur: key.clone(), spelling: Spelling::CodeAfter(1, 0, 0) }), seps: 0 });
+        out.push(Case { shape: Shape::Literal(MoneyLit { amount: NumLit { v: 1.5, sign: 1, group: false }, suffix: Some('k'), cur: key.clone(), spelling: Spelling::CodeAfter(1, 0, 0) }), seps: 0, via: 0 });
         if symbol_alias_of(key).is_some() {
             for sp in [Spelling::SymBefore, Spelling::SymAfter(0), Spelling::SymAfter(1), Spelling::SymAfter(2)] {
                 for suffix in [None, Some('k'), Some('M')] {
-                    out.push(Case { shape: Shape::Literal(MoneyLit { amount: NumLit { v: 2.25, sign: 0, group: false }, suffix, cur: key.clone(), spelling: sp.clone() }.normalise()), seps: 0 });
+                    out.push(Case { shape: Shape::Literal(MoneyLit { amount: NumLit { v: 2.25, sign: 0, group: false }, suffix, cur: key.clone(), spelling: sp.clone() }.normalise()), seps: 0, via: 0 });
                 }
             }
         }
         for a in latin_aliases_of(key) {
             for cp in 0..4u8 {
-                out.push(Case { shape: Shape::Literal(MoneyLit { amount: NumLit { v: 99.0, sign: 0, group: false }, suffix: None, cur: key.clone(), spelling: Spelling::AliasAfter(a.clone(), 1, cp, 0) }), seps: 0 });
+                out.push(Case { shape: Shape::Literal(MoneyLit { amount: NumLit { v: 99.0, sign: 0, group: false }, suffix: None, cur: key.clone(), spelling: Spelling::AliasAfter(a.clone(), 1, cp, 0) }), seps: 0, via: 0 });
             }
         }
     }
@@ -578,7 +602,7 @@ pub fn history_strategy() -> impl Strategy<Value = History> {
 }
 
 pub fn run(ctx: &Ctx) {
-    ctx.rule("literals: every configured currency code (161) x spacing x case, symbol-before/after and Latin aliases where configured, k/M suffix, signs, grouping; conversion: ALL ordered pairs of the 32 rated currencies incl. identities (exhaustive table) plus generated amounts/spellings/connectives (to|in|into|as|none)/target spelled as code or alias in any case; arithmetic m1+-m2, m*n, m/n, m1/m2; histories of update_currency (code, alias, symbol, unknown names) interleaved with evaluations on a fresh calculator, a fixed panel of 8 lines re-checked after every update; oracle = rate table model initialised from config.json currency_rates; non-trivial = conversion/arith between two DIFFERENT currencies, scaling, literals with suffix or fraction, histories where an updated currency is used afterwards");
+    ctx.rule("literals: every configured currency code (161) x spacing x case, symbol-before/after and Latin aliases where configured, k/M suffix, signs, grouping; conversion: ALL ordered pairs of the 32 rated currencies incl. identities (exhaustive table) plus generated amounts/spellings/connectives (to|in|into|as|none)/target spelled as code or alias in any case; arithmetic m1+-m2, m*n, m/n, m1/m2; histories of update_currency (code, alias, symbol, unknown names) interleaved with evaluations on a fresh calculator, a fixed panel of 8 lines re-checked after every update; metamorphic step (a quarter of the cases): the first or second amount also held in a name bound on an earlier line - the line must give the literal line's value; oracle = rate table model initialised from config.json currency_rates; non-trivial = conversion/arith between two DIFFERENT currencies, scaling, literals with suffix or fraction, histories where an updated currency is used afterwards");
     ctx.assume("'code before amount' (usd 10) is not a supported spelling and is not generated; the target of a conversion is a word, not a symbol");
     ctx.assume("identity and ratios are compared with relative tolerance 1e-9 (the library divides by rate(A) and multiplies by rate(B))");
     ctx.run_table(&MoneyProp, "all-literal-spellings", literal_table(), true);
